@@ -590,6 +590,14 @@ func (c *handlerCtx) bindReply(header Header) interface{} {
 
 	// unlock: handleReply
 	c.callCmd.mu.Lock()
+	if c.callCmd.hasReply() {
+		// a reply to this call has already been received (it is being
+		// handled or the call is done): ignore the duplicate frame
+		c.callCmd.mu.Unlock()
+		c.callCmd = nil
+		Warnf("repeated reply for call cmd: %v", c.input)
+		return nil
+	}
 	c.input.SetServiceMethod(c.callCmd.output.ServiceMethod())
 	c.swap = c.callCmd.swap
 	c.callCmd.inputBodyCodec = c.GetBodyCodec()
